@@ -1,3 +1,20 @@
 //! verification hooks: storage (guarded by cfg ordinals_ord_verif)
 #![allow(unused_imports, dead_code)]
 use super::*;
+
+/// Set the four chain switches of an `Options` value directly. The command
+/// line parser puts them in one exclusive argument group, so combinations can
+/// only be built programmatically; `Settings::from_options` resolves them in a
+/// fixed order that the settings-precedence check observes.
+pub fn options_set_chain_flags(
+  options: &mut Options,
+  signet: bool,
+  regtest: bool,
+  testnet: bool,
+  testnet4: bool,
+) {
+  options.signet = signet;
+  options.regtest = regtest;
+  options.testnet = testnet;
+  options.testnet4 = testnet4;
+}
